@@ -726,6 +726,48 @@ def sanitise(case):
 # entry points
 # ------------------------------------------------------------------------------------------------
 
+def links_and_dot_names_leg(acc):
+    """Judged with a direct oracle (expected bytes per path): a symbolic link whose name matches the
+    globs and whose target is a regular file is that file under the link's name - met in a directory
+    or named explicitly -, and `.lua` / `.luau` are names that match `*.lua` / `*.luau`."""
+    U = lambda k: clilib.lua_unformatted(k)
+    F = lambda k: M.ref_format(U(k), clilib.cfg())[1]
+    scenarios = []
+
+    def sc(tag, files, links, argv, expect, rc=0):
+        scenarios.append((tag, mk_case("links-dot-names", tag, files, argv, links=links), expect, rc))
+
+    base = {"proj/a.lua": U(1), "data/impl.txt": U(2), "proj/impl2.txt": U(3), "proj/notes.txt": U(4)}
+    links = {CWD + "/proj/link.lua": "../data/impl.txt", CWD + "/proj/l2.lua": "impl2.txt"}
+    fmt_all = {"proj/a.lua": F(1), "data/impl.txt": F(2), "proj/impl2.txt": F(3), "proj/notes.txt": U(4)}
+    sc("link-in-directory", base, links, ["proj"], fmt_all)
+    # (with `.` the out-of-directory target is itself inside the walk under a name that does not match: which of
+    # its two names decides is not documented, so that file is not judged here)
+    sc("link-in-directory:dot", base, links, ["."], {k: v for k, v in fmt_all.items() if k != "data/impl.txt"})
+    sc("link-named", base, links, ["proj/link.lua"], {"proj/a.lua": U(1), "data/impl.txt": F(2), "proj/impl2.txt": U(3), "proj/notes.txt": U(4)})
+    sc("link-in-directory:check", base, links, ["--check", "proj"], {"proj/a.lua": U(1), "data/impl.txt": U(2), "proj/impl2.txt": U(3), "proj/notes.txt": U(4)}, rc=1)
+    dots = {".lua": U(5), "sub/.luau": U(6), "plain.lua": U(7), "lua": U(8), "sub/x.txt": U(9)}
+    sc("dot-names:allow-hidden", dots, {}, ["--allow-hidden", "."], {".lua": F(5), "sub/.luau": F(6), "plain.lua": F(7), "lua": U(8), "sub/x.txt": U(9)})
+    sc("dot-names:hidden-off", dots, {}, ["."], {".lua": U(5), "sub/.luau": U(6), "plain.lua": F(7), "lua": U(8), "sub/x.txt": U(9)})
+    sc("dot-names:named", dots, {}, [".lua", "sub/.luau"], {".lua": F(5), "sub/.luau": F(6), "plain.lua": U(7), "lua": U(8), "sub/x.txt": U(9)})
+    sc("dot-names:named+respect-ignores", dots, {}, ["--respect-ignores", ".lua", "plain.lua"], {".lua": F(5), "sub/.luau": U(6), "plain.lua": F(7), "lua": U(8), "sub/x.txt": U(9)})
+    for tag, case, expect, rc in scenarios:
+        o = M.run_case(case, strace=False)
+        if o.harness_error or o.timed_out:
+            acc.incon(f"links/dot names leg: {o.harness_error or 'timeout'}")
+            continue
+        acc.count("links_dot_names.runs")
+        problems = []
+        if o.rc != rc:
+            problems.append(f"exit {o.rc}, expected {rc}")
+        for rel, want in expect.items():
+            got = o.after.get(CWD + "/" + rel)
+            if got != want.encode():
+                problems.append(f"{rel}: {'missing' if got is None else repr(got[:60])}, expected {want[:60]!r}")
+        if problems:
+            acc.finding("links-dot-names", f"C16:links-dot-names:{tag.split(':')[0]}", f"[{tag}] argv {case['argv']}: " + "; ".join(problems[:4]), case)
+
+
 def build_cases(tier, seed):
     pinned = fam_grid(tier) + fam_twice(tier) + fam_own_dir_shadow(tier) + fam_unspecified(tier)
     rng = clilib.Rng(seed)
@@ -750,6 +792,7 @@ def run(tier, seed):
             chunk = cases[i:i + B]
             for c, o in zip(chunk, M.run_many(chunk, strace=st)):
                 judge(c, o, acc)
+        links_and_dot_names_leg(acc)
     finally:
         M.ref_close()
     return acc.result()
@@ -758,6 +801,9 @@ def run(tier, seed):
 def replay(case):
     acc = M.Acc(PROP)
     try:
+        if case.get("family") == "links-dot-names":
+            links_and_dot_names_leg(acc)
+            return [f for f in acc.findings if f["case"].get("tag") == case.get("tag")]
         o = M.run_case(case, strace=clilib.strace_available())
         return judge(case, o, acc)
     finally:
